@@ -136,6 +136,10 @@ var c11Shapes = []string{
 	"!expr $", "!expr $.steps", "!expr $.steps.a", "!expr $.input", "!expr $.nosuch", "!expr \"$[0]\"", "!expr \"$.steps[0]\"", "!expr \"$.steps.a[0]\"",
 	"!expr \"1 +\"", "!expr \"f(\"", "!expr \"$.steps.a.outputs.success.v.x\"", "!expr \"$.steps.a.outputs.success[0]\"", "!expr \"$.input.n.x\"", "!expr \"nosuchfn($.input.n)\"",
 	"!wait-optional $", "!soft-optional $.steps", "!ordisabled $", "!ordisabled $.steps.a",
+	// schema fragments (meaningful where the seed document holds the input / output schema)
+	"{type_id: ref, id: nosuchobject}", "{type_id: ref}", "{type_id: object, id: x, properties: {}}", "{type_id: list}", "{type_id: list, items: {type_id: ref, id: nosuchobject}}",
+	"{type_id: map}", "{type_id: map, keys: {type_id: ref, id: nosuchobject}, values: {type_id: string}}", "{type_id: one_of_string, discriminator_field_name: d, types: {}}",
+	"{type_id: one_of_string, types: {a: {type_id: ref, id: nosuchobject}}}", "{type_id: nosuchtype}", "{type_id: pattern}", "{type_id: enum_string, values: {}}", "{type_id: integer, min: x}",
 	"!oneof x", "!oneof {discriminator: d, one_of: {a: !expr $.input}}", "!oneof {discriminator: d, one_of: [a, b]}", "!oneof {discriminator: [d], one_of: {}}", "!oneof {one_of: {}}", "!oneof []",
 	"!ordisabled $.steps.a.outputs", "!ordisabled x", "!ordisabled {a: 1}", "!ordisabled [a]",
 	"!wait-optional $.steps.a.outputs.success.v", "!wait-optional {a: 1}", "!soft-optional [x]", "!soft-optional \"\"",
@@ -461,7 +465,7 @@ func c11Child(idx int) {
 
 func init() {
 	register(&PropCheck{ID: "C11", Level: "exploration",
-		Rule:        "(a) every byte string up to length 3 (4 in the thorough tier) over a 15-symbol YAML-significant alphabet as workflow file, sub-workflow file and input file; (b) every single-point structural corruption of 8 seed workflows (each node replaced by each of 57 YAML shapes incl. every engine tag on scalar/map/list, root-only / truncated / dangling expressions, each key removed, each key duplicated, each tag moved to its parent) and of a valid input document; (c) sub-workflow reference structures (depth 1-4, diamond, siblings, shared across levels, missing, sub-directory, non-string references; in a child process each: self/2-/3-cycles, a loop file named like the main workflow key, YAML anchors containing an alias to themselves as workflow / input / sub-workflow); a case is non-trivial when it parses or yields a distinct error class",
+		Rule:        "(a) every byte string up to length 3 (4 in the thorough tier) over a 15-symbol YAML-significant alphabet as workflow file, sub-workflow file and input file; (b) every single-point structural corruption of 8 seed workflows (each node replaced by each of 70 YAML shapes incl. every engine tag on scalar/map/list, root-only / truncated / dangling expressions, each key removed, each key duplicated, each tag moved to its parent) and of a valid input document; (c) sub-workflow reference structures (depth 1-4, diamond, siblings, shared across levels, missing, sub-directory, non-string references; in a child process each: self/2-/3-cycles, a loop file named like the main workflow key, YAML anchors containing an alias to themselves as workflow / input / sub-workflow); a case is non-trivial when it parses or yields a distinct error class",
 		Assumptions: []string{"finite alphabets and seeds only: the universal over all byte strings is not covered (random fuzzing is a different family and is not used)", "parsing uses the scripted deployer for the plugin schema probe", "a case that does not return within 30 s (90 s in the child) counts as an endless loop"},
 		Budget:      budget(170*time.Second, 25*time.Minute),
 		Units: func(tier string) []*Unit {
